@@ -66,25 +66,26 @@ def run_span(all_rows, r):
 
 
 KINDS_ALL = ("rowmap", "filter", "merge2", "multi", "loop", "overlap", "downchunk", "exhaust")
-LAGGING = ("overlap", "downchunk", "exhaust")
+LAGGING = ("overlap", "overlapm", "downchunk", "exhaust")
 
 
 def gen_graph(r, n_derived=(1, 5), n_sources=(1, 2), kinds=KINDS_ALL, n_rows=(0, 12),
-              must_have=None, max_chunks=8, disjoint_sources=None):
+              must_have=None, max_chunks=8, disjoint_sources=None, bounds_style=None, long_rows_p=0.15):
     """A random acyclic plugin graph with data.  Returns the spec (JSON-able)."""
     ns = r.randint(*n_sources)
     nodes, types, kind_of, disjoint, all_rows = [], [], {}, {}, []
     src_rows = []
     for i in range(ns):
         dj = r.random() < 0.7 if disjoint_sources is None else disjoint_sources
-        rows = gen_rows(r, r.randint(*n_rows), disjoint=dj, long_rows=r.random() < 0.15)
+        rows = gen_rows(r, r.randint(*n_rows), disjoint=dj, long_rows=r.random() < long_rows_p)
         src_rows.append((dj, rows))
         all_rows.append(rows)
     start, end = run_span(all_rows, r)
     for i, (dj, rows) in enumerate(src_rows):
         name = f"s{chr(97 + i)}"
         nodes.append({"name": name, "kind": "source", "rows": rows,
-                      "bounds": gen_bounds(r, rows, start, end, max_chunks=max_chunks)})
+                      "bounds": gen_bounds(r, rows, start, end, max_chunks=max_chunks,
+                                           style=(r.choice(bounds_style) if bounds_style else None))})
         types.append(name)
         kind_of[name] = "k_" + name
         disjoint[name] = dj
@@ -149,6 +150,17 @@ def gen_graph(r, n_derived=(1, 5), n_sources=(1, 2), kinds=KINDS_ALL, n_rows=(0,
             else:
                 kind_of[name] = kind_of[d]
             disjoint[name] = True
+        elif kind == "overlapm":
+            ds = [t for t in usable if disjoint[t]]
+            if not ds:
+                continue
+            d = r.choice(ds)
+            wl, wr = r.choice([(0, 0), (3, 3), (0, 6), (6, 0), (2, 5), (50, 50), (1600, 1600)])
+            g = r.randint(0, wr)
+            x, y = f"{name}x", f"{name}y"
+            node = {"names": [x, y], "kind": "overlapm", "dep": d, "wl": max(wl, g), "wr": wr, "g": g}
+            kind_of[x], disjoint[x] = kind_of[d], True
+            kind_of[y], disjoint[y] = "k_" + y, True
         elif kind == "downchunk":
             d = r.choice(usable)
             node = {"name": name, "kind": "downchunk", "dep": d, "k": r.randint(1, 4)}
@@ -201,7 +213,7 @@ def reconvergent(spec, target):
             return True
     nb = P.node_by_type(spec)
     for t in need:
-        if nb[t]["kind"] == "multi" and len(set(nb[t]["names"]) & need) == 2:
+        if "names" in nb[t] and len(set(nb[t]["names"]) & need) == 2:
             return True
     return False
 
